@@ -98,6 +98,16 @@ def shaped_groups(pp, groups, shape):
     return [pymods(pp, g) for g in groups]
 
 
+def term_arg(rules, shaped, tid):
+    """The terminal rules as the caller may write them: a dictionary condition -> value, or - for one rule without a
+    condition on the terminal residue - the value alone (a single value, a flat list, a list of groups)."""
+    if not rules:
+        return None
+    if len(rules) == 1 and term_key(rules[0]) == "" and sum(map(ord, tid)) % 2:
+        return shaped(rules[0])
+    return {term_key(r): shaped(r) for r in rules}
+
+
 def distinct_keys(rules, keyf):
     seen, out = set(), []
     for r in rules:
@@ -123,8 +133,8 @@ def static_event(pp, tid, A, irules, nrules, crules, mode, rt, via, shape="mods"
 
     def kw():
         return dict(internal_mods={regex_of(r): shaped_mods(pp, r["mods"], shape) for r in irules},
-                    nterm_mods={term_key(r): shaped_mods(pp, r["mods"], shape) for r in nrules} or None,
-                    cterm_mods={term_key(r): shaped_mods(pp, r["mods"], shape) for r in crules} or None, mode=mode, return_type=rt)
+                    nterm_mods=term_arg(nrules, lambda r: shaped_mods(pp, r["mods"], shape), tid),
+                    cterm_mods=term_arg(crules, lambda r: shaped_mods(pp, r["mods"], shape), tid + "c"), mode=mode, return_type=rt)
 
     def f():
         r1 = pp.apply_static_mods(src, **kw())
@@ -146,8 +156,8 @@ def variable_event(pp, tid, A, irules, nrules, crules, max_mods, mode, rt, via, 
 
     def f():
         res = pp.apply_variable_mods(src, {regex_of(r): shaped_groups(pp, r["groups"], shape) for r in irules}, max_mods,
-                                     nterm_mods={term_key(r): shaped_groups(pp, r["groups"], shape) for r in nrules} or None,
-                                     cterm_mods={term_key(r): shaped_groups(pp, r["groups"], shape) for r in crules} or None,
+                                     nterm_mods=term_arg(nrules, lambda r: shaped_groups(pp, r["groups"], shape), tid),
+                                     cterm_mods=term_arg(crules, lambda r: shaped_groups(pp, r["groups"], shape), tid + "c"),
                                      mode=mode, return_type=rt)
         return [project.ann(pp.parse(x) if isinstance(x, str) else x) for x in res]
     o, r = call(f)
